@@ -39,6 +39,14 @@ def gen(rng, tier):
     if rng.random() < 0.06:
         wait = None                       # an unrepresentable deadline (Duration::MAX) behaves like no deadline
         header = "bulkhead max=%d wait=max" % mx
+    r0 = rng.random()
+    if r0 < 0.10:
+        header += " pre=reject"           # reject_when_full() first, then the wait (if any) is set: the wait wins
+        if wait is None and "wait=max" not in header:
+            wait = 0
+    elif r0 < 0.18:
+        header += " post=reject"          # … set last: zero wait wins
+        wait = 0
     burn_p = rng.choice([0, 0, 0.15, 0.5])  # callers whose task has used up its cooperative budget before the first poll
     via_p = rng.choice([0, 0.3, 0.7, 1.0])  # how callers obtain the handle they call (clone / clone of a ready handle / swap idiom / the template)
     idle_p = rng.choice([0, 0, 0.1, 0.3])
@@ -116,6 +124,9 @@ def _scan(case, lines, meta):
     cfg = kvs(case["header"])
     mx = int(cfg.get("max", "1"))
     wait = int(cfg["wait"]) if "wait" in cfg and cfg["wait"] != "max" else None   # "max": Duration::MAX, never due
+    # builder setter order: the last of reject_when_full() / max_wait_duration(..) decides
+    if cfg.get("post") == "reject" or (cfg.get("pre") == "reject" and "wait" not in cfg):
+        wait = 0
     return mx, wait
 
 
@@ -189,6 +200,10 @@ def mon_c07(case, lines, meta):
             wakes[w[1]] = [int(x) for x in w[2].split(",")]
         elif kind == "meta" and w[0] == "#drop":
             waiting.discard(w[1])
+        elif kind == "meta" and w[0] == "#pollend":
+            c = w[1]
+            if c in waiting and c in fp and wait is not None and t is not None and t >= fp[c] + wait:
+                return "caller %s (arrived t=%s, max_wait=%s) was polled at t=%s, had no slot, and was neither admitted nor rejected: it waits beyond its deadline" % (c, fp[c], wait, t)
         elif kind == "line" and w[0] == "inner_call":
             inflight.add(w[2])
             called.add(w[1])
